@@ -102,6 +102,54 @@ Definition lit_fixed (f : fixes) : fixes :=
   {| fx_union := fx_union f; fx_lit := true; fx_key := fx_key f; fx_valerr := fx_valerr f |}.
 Definition chk_lit (fx : fixes) (yl : str -> lres) : ty -> val -> ares := check_type_g (lit_fixed fx) yl.
 
+(* ---- the command line once more: a Dict[str, T] setting given item by item, --key.k1=TEXT1 --key.k2=TEXT2 ... --------
+   ActionTypeHint.parse_argv_item splits the item at the FIRST '=' into the nested key and the text
+   (_typehints.py:394-412); __call__ wraps the text as NestedArg(key=k, val=text) (:531-536); _check_type loads the
+   text with parse_value_or_config (a NestedArg keeps its key, its val is loaded), adapt_typehints' Dict branch merges
+   {**prev_val, k: val} with prev_val = cfg.get(dest) (:903-907) and adapts every value.  orig_val is the NestedArg —
+   not a str — so neither the retry with the original string (:583-587) nor the Union fallback nor _is_valid_string
+   apply: `retry` = false is the tree as it is, true the repaired behaviour (retry with the raw text of the item). *)
+Fixpoint dict_put (k : str) (v : val) (d : list (val * val)) : list (val * val) :=
+  match d with
+  | [] => [(VStr k, v)]
+  | (k', v') :: d' => if val_eqb k' (VStr k) then (k', v) :: d' else (k', v') :: dict_put k v d'
+  end.
+
+Definition nested_item (fx : fixes) (yl : str -> lres) (retry : bool) (t1 : ty) (prev : list (val * val)) (k s : str) : ares :=
+  match parse_value fx yl false (VStr s) with
+  | LValErr => AErr ErrType
+  | pv =>
+      let v := match pv with LVal x => x | _ => VStr s end in
+      match adapt_g fx yl false None (TDict false t1) (VDict (dict_put k v prev)) with
+      | AErr ErrValue =>
+          if retry then
+            match adapt_g fx yl false None (TDict false t1) (VDict (dict_put k (VStr s) prev)) with
+            | AOk w => AOk w
+            | AErr _ => AErr ErrType
+            end
+          else AErr ErrType
+      | r => r
+      end
+  end.
+
+Fixpoint nested_items (fx : fixes) (yl : str -> lres) (retry : bool) (t1 : ty) (prev : list (val * val))
+                      (items : list (str * str)) : ares :=
+  match items with
+  | [] => AOk (VDict prev)
+  | (k, s) :: r =>
+      match nested_item fx yl retry t1 prev k s with
+      | AOk (VDict d) => nested_items fx yl retry t1 d r
+      | AOk w => AOk w
+      | AErr e => AErr e
+      end
+  end.
+
+Definition via_argv_nested (fx : fixes) (yl : str -> lres) (retry : bool) (t : ty) (items : list (str * str)) : ares :=
+  match t with
+  | TDict false t1 => validated (check_type_g fx yl) t (nested_items fx yl retry t1 [] items)
+  | _ => AErr ErrType
+  end.
+
 (* ---- JSON scalar grammar (RFC 8259 numbers), for the "JSON scalars are YAML scalars" theorem ---------- *)
 From JV Require Import Lib.Regex.
 Definition digit : re := rng 48 57.
